@@ -174,6 +174,24 @@ CHECKS['C12'] = dict(
     technique='stateful / model-based property testing (Hypothesis '
               'RuleBasedStateMachine) with invariants after every rule')
 
+CHECKS['C05'] = dict(
+    category='exploration', design_ref='DESIGN.md §6 (C05)',
+    text='Differential: for Hypothesis-generated configurations (networks, '
+         'periodic, 9 blob kinds, discard, vectorised, 4 prior kinds) one '
+         'uninterrupted run is the reference; the same run is cut at every '
+         'batch boundary by n_like_max and by fake-clock timeouts, and a new '
+         'sampler is resumed from a copy of the checkpoint at every boundary '
+         '(thorough: each continued to the end; quick: stratified '
+         'boundaries continued to the end, all others advanced two batches '
+         'and compared with the sliced run), plus a multi-resume sequence. '
+         'Posterior arrays, log_z, n_eff, n_like and shell lengths must be '
+         'bit-identical and the sequence of evaluated points equal.',
+    note='Runs limited to 25-90 batches (45 in quick) by a total n_like_max '
+         'shared with the reference; bit-exact likelihood families; tiny '
+         'networks.',
+    technique='property-based testing (Hypothesis) with differential oracle '
+              'over exhaustive per-run cut points')
+
 NOT_YET = {}
 
 
